@@ -23,6 +23,7 @@ pub struct GcMon {
     pub freed_max: u64,
     pub untraces: u64,
     pub destroys: u64,
+    spec_roots: Vec<Object>,
 }
 
 thread_local! {
@@ -112,7 +113,14 @@ fn callback(phase: GcPhase, roots: &[&[Object]], managed: &[Object]) {
         match phase {
             GcPhase::RunBegin => {
                 let mut dead = vec![];
-                let reach = reachable(roots, &mut dead);
+                // the roots the property names (recorded by the VM hook right before the collection) together with
+                // the roots the VM actually handed to the collector: a root the VM forgot is still a root
+                let spec = verif::take_spec_roots();
+                m.spec_roots = spec;
+                let mut all: Vec<&[Object]> = roots.to_vec();
+                let spec_slice = m.spec_roots.clone();
+                all.push(&spec_slice);
+                let reach = reachable(&all, &mut dead);
                 for a in dead {
                     if m.reach_findings.len() < 20 {
                         m.reach_findings.push(format!("a root or reachable slot refers to an object that was already released ({:#x}) when the collection started", a));
@@ -139,7 +147,10 @@ fn callback(phase: GcPhase, roots: &[&[Object]], managed: &[Object]) {
                 m.freed_max = m.freed_max.max(freed);
                 // C03: everything that was reachable is still allocated and unchanged
                 let mut dead = vec![];
-                let reach_now = reachable(roots, &mut dead);
+                let spec_slice = std::mem::take(&mut m.spec_roots);
+                let mut all: Vec<&[Object]> = roots.to_vec();
+                all.push(&spec_slice);
+                let reach_now = reachable(&all, &mut dead);
                 let now: HashMap<usize, u64> = reach_now.iter().map(|o| (verif::addr(*o), digest(*o))).collect();
                 let before_reach = std::mem::take(&mut m.before_reach);
                 for (a, d) in before_reach.iter() {
